@@ -11,9 +11,11 @@ import (
 	gomavlib "github.com/bluenviron/gomavlib/v3"
 	"github.com/bluenviron/gomavlib/v3/pkg/dialects/ardupilotmega"
 	"github.com/bluenviron/gomavlib/v3/pkg/dialects/common"
+	"github.com/bluenviron/gomavlib/v3/pkg/dialects/minimal"
 	"pgregory.net/rapid"
 
 	"verifharness/evid"
+	"verifharness/ref"
 	"verifharness/sim"
 )
 
@@ -54,7 +56,7 @@ func (c *chanSpec) rejected() int {
 	return n
 }
 
-func drawScript(t *rapid.T, tag byte, withDialect bool, key *[32]byte, maxSeg int) []seg {
+func drawScript(t *rapid.T, tag byte, withDialect bool, key *[32]byte, maxSeg int, heartbeats bool) []seg {
 	n := rapid.IntRange(0, maxSeg).Draw(t, "nseg")
 	var out []seg
 	idx := 0
@@ -67,10 +69,27 @@ func drawScript(t *rapid.T, tag byte, withDialect bool, key *[32]byte, maxSeg in
 		if key != nil {
 			kinds = append(kinds, "badsig", "unsigned", "badsig-future")
 		}
+		if heartbeats {
+			kinds = append(kinds, "valid-hb", "valid-hb")
+		}
 		k := rapid.SampledFrom(kinds).Draw(t, "segkind")
 		v2 := key != nil || rapid.Bool().Draw(t, "v2")
 		ts += uint64(rapid.IntRange(0, 50).Draw(t, "dts"))
 		switch k {
+		case "valid-hb":
+			// an ArduPilot heartbeat from a sender this channel has not seen yet (component = index)
+			l := lay(0)
+			f := ref.Frame{V2: v2, Seq: byte(idx), Sys: 50 + tag, Comp: byte(idx), ID: 0}
+			f.Payload = l.Encode(&minimal.MessageHeartbeat{Type: 2, Autopilot: 3, SystemStatus: 4, MavlinkVersion: 3}, v2)
+			f.Checksum = f.ChecksumFor(l.CRCExtra)
+			if key != nil {
+				f.V2, f.Incompat, f.LinkID, f.Timestamp = true, 1, tag, ts
+				f.Payload = l.Encode(&minimal.MessageHeartbeat{Type: 2, Autopilot: 3, SystemStatus: 4, MavlinkVersion: 3}, true)
+				f.Checksum = f.ChecksumFor(l.CRCExtra)
+				f.Sig = f.SignatureFor(*key)
+			}
+			out = append(out, seg{kind: k, bytes: f.Bytes(), idx: idx})
+			idx++
 		case "valid-raw", "valid-debug":
 			f := tagged(tag, idx, strings.TrimPrefix(k, "valid-"), v2, key, ts)
 			out = append(out, seg{kind: k, bytes: f.Bytes(), idx: idx})
@@ -173,17 +192,19 @@ func (c *chanSpec) feed(udpAddr, tcpAddr string) error {
 }
 
 type c10World struct {
-	specs   []*chanSpec
-	key     *[32]byte
-	dialect bool
-	pacing  sim.Pacing
-	pauseMs int
-	writers int
+	streamReq bool
+	outV1     bool
+	specs     []*chanSpec
+	key       *[32]byte
+	dialect   bool
+	pacing    sim.Pacing
+	pauseMs   int
+	writers   int
 }
 
 func (w *c10World) describe() string {
 	var b strings.Builder
-	fmt.Fprintf(&b, "dialect=%v inKey=%v pacing=%+v pause=%dms writers=%d\n", w.dialect, w.key != nil, w.pacing, w.pauseMs, w.writers)
+	fmt.Fprintf(&b, "dialect=%v inKey=%v outV1=%v pacing=%+v pause=%dms writers=%d\n", w.dialect, w.key != nil, w.outV1, w.pacing, w.pauseMs, w.writers)
 	for i, c := range w.specs {
 		fmt.Fprintf(&b, " channel %d (%s, tag %d, delay %v, disconnect %v, chunks %v):", i, c.kind, c.tag, c.startDelay, c.disconnect, c.chunks)
 		for _, s := range c.script {
@@ -231,10 +252,12 @@ func renderEvents(recs []sim.Rec, chanIdx map[*gomavlib.Channel]int) string {
 
 func TestC10EventStream(t *testing.T) {
 	rec := evid.New(t, "C10", "scripted scenarios on a real Node: 1..4 channels (custom in-memory transports, TCP-server and UDP-server peers on loopback) each fed a generated script of valid tagged frames, complete frames with wrong checksum / wrong signature / missing signature and non-marker junk in generated chunkings, a consumer with generated pacing (fast, sleeping, bursty, paused then resumed), concurrent WriteMessageAll callers, late-connecting and disconnecting TCP peers; per channel the event sequence must match Open (Frame|ParseError)* Close?, frames == the valid frames of that channel's script in order with the channel's tag, rejected input only as ParseError, exactly one Close for a disconnected peer and nothing after it; non-trivial = >=2 channels with >=1 rejected segment and a non-fast consumer; distinct by hash of the scripts")
-	rec.Require("multi-channel+rejected+slow-consumer", "custom", "tcp", "udp", "inkey", "disconnect", "paused-consumer", "concurrent-writers")
+	rec.Require("multi-channel+rejected+slow-consumer", "custom", "tcp", "udp", "inkey", "inkey+out-v1", "disconnect", "paused-consumer", "concurrent-writers", "stream-requests-enabled")
 	evid.Check(t, rec, evid.N(400, 1000), func(t *rapid.T) {
 		w := &c10World{}
 		w.dialect = rapid.IntRange(0, 3).Draw(t, "dialect") > 0
+		w.outV1 = rapid.IntRange(0, 2).Draw(t, "out_v1") == 0
+		w.streamReq = w.dialect && rapid.Bool().Draw(t, "stream_requests")
 		if rapid.IntRange(0, 3).Draw(t, "inkey") == 0 {
 			k := [32]byte{}
 			copy(k[:], rapid.SliceOfN(rapid.Byte(), 32, 32).Draw(t, "key"))
@@ -244,7 +267,7 @@ func TestC10EventStream(t *testing.T) {
 		for i := 0; i < nch; i++ {
 			c := &chanSpec{tag: byte(i + 1)}
 			c.kind = rapid.SampledFrom([]string{"custom", "custom", "tcp", "tcp", "udp"}).Draw(t, "kind")
-			c.script = drawScript(t, c.tag, w.dialect, w.key, 14)
+			c.script = drawScript(t, c.tag, w.dialect, w.key, 14, w.streamReq)
 			c.chunks = rapid.SliceOfN(rapid.IntRange(1, 40), 0, 30).Draw(t, "chunks")
 			c.startDelay = time.Duration(rapid.IntRange(0, 3000).Draw(t, "delay_us")) * time.Microsecond
 			c.disconnect = c.kind == "tcp" && rapid.Bool().Draw(t, "disconnect")
@@ -282,6 +305,9 @@ func TestC10EventStream(t *testing.T) {
 		}
 		if w.key != nil {
 			cls = append(cls, "inkey")
+			if w.outV1 {
+				cls = append(cls, "inkey+out-v1")
+			}
 		}
 		if disc {
 			cls = append(cls, "disconnect")
@@ -291,6 +317,9 @@ func TestC10EventStream(t *testing.T) {
 		}
 		if w.writers > 0 {
 			cls = append(cls, "concurrent-writers")
+		}
+		if w.streamReq {
+			cls = append(cls, "stream-requests-enabled")
 		}
 		nt := len(w.specs) >= 2 && rejected >= 1 && (w.pacing.Kind != "fast" || w.pauseMs > 0)
 		if nt {
@@ -326,14 +355,18 @@ func runC10(w *c10World) error {
 		endpoints = append(endpoints, gomavlib.EndpointUDPServer{Address: udpAddr})
 	}
 	n := &gomavlib.Node{
-		Endpoints:        endpoints,
-		OutVersion:       gomavlib.V2,
-		OutSystemID:      11,
-		HeartbeatDisable: true,
-		InKey:            keyOf(w.key),
+		Endpoints:           endpoints,
+		OutVersion:          gomavlib.V2,
+		OutSystemID:         11,
+		HeartbeatDisable:    true,
+		InKey:               keyOf(w.key),
+		StreamRequestEnable: w.streamReq,
 	}
 	if w.dialect {
 		n.Dialect = ardupilotmega.Dialect
+	}
+	if w.outV1 {
+		n.OutVersion = gomavlib.V1 // the incoming key is independent of the outgoing version
 	}
 	if err := n.Initialize(); err != nil {
 		return fmt.Errorf("BROKEN: node init: %v", err)
@@ -502,6 +535,7 @@ func runC10(w *c10World) error {
 		frames         []int
 		perr           int
 		closeAt        int
+		sreq           int
 	}
 	states := map[*gomavlib.Channel]*st{}
 	for i, r := range recs {
@@ -540,6 +574,9 @@ func runC10(w *c10World) error {
 					return fmt.Errorf("event %d: frame event with nil frame\n%s", i, dump())
 				}
 				tag, idx, ok := identify(e.Frame)
+				if _, isHB := e.Frame.GetMessage().(*minimal.MessageHeartbeat); isHB {
+					tag, idx, ok = e.Frame.GetSystemID()-50, int(e.Frame.GetComponentID()), true
+				}
 				ci, known := m[ch]
 				if !ok {
 					return fmt.Errorf("event %d: frame event with content that was never sent (id %d)\n%s", i, e.Frame.GetMessage().GetID(), dump())
@@ -549,7 +586,10 @@ func runC10(w *c10World) error {
 				}
 				s.frames = append(s.frames, idx)
 			case *gomavlib.EventStreamRequested:
-				return fmt.Errorf("event %d: stream-requested event although stream requests are disabled", i)
+				if !w.streamReq {
+					return fmt.Errorf("event %d: stream-requested event although stream requests are disabled", i)
+				}
+				s.sreq++
 			}
 		}
 	}
@@ -574,6 +614,15 @@ func runC10(w *c10World) error {
 		}
 		if rej == 0 && s.perr > 0 {
 			return fmt.Errorf("channel %d: %d parse-error events although nothing in its input was rejectable\n%s", ci, s.perr, dump())
+		}
+		nhb := 0
+		for _, sg := range c.script {
+			if sg.kind == "valid-hb" {
+				nhb++
+			}
+		}
+		if s.sreq != nhb {
+			return fmt.Errorf("channel %d: %d stream-requested events for %d new ArduPilot senders\n%s", ci, s.sreq, nhb, dump())
 		}
 		if c.disconnect {
 			if !s.closed || s.closeAt >= preClose {
